@@ -144,7 +144,50 @@ def tool_values(r, lo, hi, size, kind):
     return [c08.gen_value(r, lo, hi, kind) for _ in range(size)]
 
 
+def inject_nonfinite(r, rows, kind):
+    """put NaN (kind 'nan') or +-inf (kind 'inf') into a random, non-empty set of entries of a list of rows (in place);
+    the two datasets of a pair get independent positions and rates, hence different per-column counts"""
+    rate = r.choice([0.02, 0.1, 0.3, r.uniform(0.01, 0.5)])
+    n, d = len(rows), len(rows[0])
+    hit = False
+    for i in range(n):
+        for j in range(d):
+            if r.chance(rate):
+                rows[i][j] = float("nan") if kind == "nan" else (math.inf if r.chance(0.5) else -math.inf)
+                hit = True
+    if not hit:
+        rows[r.randint(0, n - 1)][r.randint(0, d - 1)] = float("nan") if kind == "nan" else math.inf
+
+
+def big_grid_cases(r, ctx):
+    """grids with more than 2**16 cells and few records: every released cell must have gone through a mechanism"""
+    combos = [("histogram2d", [300, 250]), ("histogramdd", [41, 41, 41]), ("histogram", [70000])]
+    if ctx.tier == "thorough":
+        combos += [("histogramdd", [70000]), ("histogramdd", [260, 260]), ("histogram2d", [257, 256])]
+    out = []
+    for tool, bins in combos:
+        d = len(bins)
+        rng_ = [list(r.choice(c08.SCALAR_BOUNDS)) for _ in range(d)]
+        lo, hi = [a for a, _ in rng_], [b for _, b in rng_]
+        n = r.randint(1, 30)
+        case = {"entry": tool, "seed": r.randint(0, 2 ** 31 - 2), "sched": r.randint(0, 10 ** 9), "shape": [n, d],
+                "params": {"epsilon": c08.gen_eps(r), "bins": bins, "range": rng_, "density": r.chance(0.5), "edges": False},
+                "D": [c08.gen_rows(r, n, lo, hi, "in"), c08.gen_rows(r, n, lo, hi, "mixed")]}
+        out.append(case)
+    return out
+
+
 def gen_tool_case(r, ctx, tool):
+    case = _gen_tool_case(r, ctx, tool)
+    if not case["params"].get("dtype_int") and r.chance(0.12):
+        kind = case["nonfinite"] = r.choice(["nan", "inf"])
+        for D in case["D"]:
+            rows = D if isinstance(D[0], list) else [D]
+            inject_nonfinite(r, rows, kind)
+    return case
+
+
+def _gen_tool_case(r, ctx, tool):
     case = {"entry": tool, "seed": r.randint(0, 2 ** 31 - 2), "sched": r.randint(0, 10 ** 9)}
     if r.chance(0.25):
         case["sched_kind"] = r.choice(["lower", "lower", "upper"])
@@ -212,14 +255,19 @@ def gen_tool_case(r, ctx, tool):
     return case
 
 
+REFUSALS = (ValueError, TypeError, FloatingPointError, np.linalg.LinAlgError, ZeroDivisionError, OverflowError)
+
+
 def run_tool(case, which, force):
     p, tool = case["params"], case["entry"]
     T = dp.tools
     acc = dp.BudgetAccountant()
     vals = case["D"][which]
+    rel = None
     with warnings.catch_warnings():
         warnings.simplefilter("ignore")
         with seams.interpose(force=force) as calls:
+          try:
             if tool in ("histogram", "histogram2d", "histogramdd"):
                 X = np.array(vals, dtype=float)
                 bins = [np.array(b) if isinstance(b, list) else b for b in p["bins"]]
@@ -249,7 +297,9 @@ def run_tool(case, which, force):
                         A = A if tool.startswith("nan") else A.astype(int)
                     out = getattr(T, tool)(A, bounds=bounds, **kw)
                 rel = {"value": out}
-    return rel, calls
+          except REFUSALS as e:
+            return None, calls, None, e
+    return rel, calls, None, None
 
 
 # ----------------------------------------------------------------------------------------------------------------------
@@ -274,8 +324,15 @@ def gen_model_case(r, ctx, model):
             X1 = case["X"] = [[g + (hi[j] - lo[j]) * r.uniform(-1e-4, 1e-4) for j, g in enumerate(groups[i % p["k"]])]
                               for i in range(n)]
             case["period"] = p["k"] * (1 + d)
-    if model in ("gnb", "scaler") and r.chance(0.3):
-        case["partial"] = True       # two partial_fit batches instead of one fit
+    if model in ("gnb", "scaler") and r.chance(0.3 if model == "gnb" else 0.45):
+        case["partial"] = True       # several fit / partial_fit calls on one estimator instead of one fit
+        if model == "scaler":
+            case["seq"] = r.choice([["partial_fit", "partial_fit"], ["fit", "partial_fit"],
+                                    ["fit", "partial_fit", "partial_fit"], ["partial_fit", "partial_fit", "partial_fit"],
+                                    ["partial_fit", "fit", "partial_fit"]])
+            if n < 2 * len(case["seq"]):
+                n = 2 * len(case["seq"])
+                X1 = case["X"] = c08.gen_rows(r, n, lo, hi, "mixed")
         if model == "gnb":
             n = max(n, 4 * p["k"])
             h = n // 2
@@ -301,6 +358,13 @@ def gen_model_case(r, ctx, model):
             y2 = c08.gen_labels(r, n // 2, p["k"]) + c08.gen_labels(r, n - n // 2, p["k"])
         else:
             y2 = c08.gen_labels(r, n, p["k"])
+    if r.chance(0.3 if model == "scaler" else 0.1):
+        # missing / infinite entries in BOTH datasets (independent positions): at HEAD every estimator refuses them
+        # before any mechanism runs; an estimator that accepts them must not let their number reach a release
+        kind = case["nonfinite"] = r.choice(["nan", "nan", "inf"])
+        X1 = case["X"] = [list(row) for row in case["X"]]
+        inject_nonfinite(r, X1, kind)
+        inject_nonfinite(r, X2, kind)
     case["entry"] = model
     case["sched"] = r.randint(0, 10 ** 9)
     case["D2kind"] = kind
@@ -365,7 +429,7 @@ def expected_calls(case, which, occ):
     n, d = len(X), len(X[0])
     if entry == "scaler":
         per = 0 if not (p["with_mean"] or p["with_std"]) else d * (2 if p["with_std"] else 1)
-        return per * (2 if case.get("partial") else 1)
+        return per * (len(case.get("seq") or [0, 0]) if case.get("partial") else 1)
     if entry == "linreg":
         t = p["t"]
         return (d + (1 if p["y1d"] else t) if p["fit_intercept"] else 0) + t + t * d + d * (d + 1) // 2
@@ -426,31 +490,48 @@ def model_release(case, model):
     raise ValueError(m)
 
 
+def batches_of(case, n):
+    """row ranges of the successive fit / partial_fit calls of a multi-call sequence"""
+    k = len(case["seq"]) if case.get("seq") else 2
+    cuts = [n * i // k for i in range(k + 1)]
+    return [(cuts[i], cuts[i + 1]) for i in range(k)]
+
+
 def run_model(case, which, force):
     X, y = (case["X"], case.get("y")) if which == 0 else (case["X2"], case.get("y2"))
-    model = c08.build(case)
+    err = None
+    try:
+        model = c08.build(case)        # a re-used estimator (case["prefit"]) is fitted once here, with real noise
+    except REFUSALS as e:
+        return None, [], None, e
     with warnings.catch_warnings():
         warnings.simplefilter("ignore")
         with c08.probing() as pr, seams.interpose(force=force) as calls:
-            args = c08.fit_args(case, X, y)
-            if case.get("sparse"):
-                import scipy.sparse as sp
-                args = (sp.csr_matrix(args[0]),) + tuple(args[1:])
-            if case.get("partial"):
-                h = len(X) // 2
-                if case["model"] == "gnb":
-                    model.partial_fit(args[0][:h], args[1][:h], classes=list(range(case["params"]["k"])))
-                    model.partial_fit(args[0][h:], args[1][h:])
+            try:
+                args = c08.fit_args(case, X, y)
+                if case.get("sparse"):
+                    import scipy.sparse as sp
+                    args = (sp.csr_matrix(args[0]),) + tuple(args[1:])
+                if case.get("partial"):
+                    bt = batches_of(case, len(X))
+                    if case["model"] == "gnb":
+                        (a0, b0), (a1, b1) = bt
+                        model.partial_fit(args[0][a0:b0], args[1][a0:b0], classes=list(range(case["params"]["k"])))
+                        model.partial_fit(args[0][a1:b1], args[1][a1:b1])
+                    else:
+                        for op, (a, b) in zip(case.get("seq") or ["partial_fit", "partial_fit"], bt):
+                            getattr(model, op)(args[0][a:b])
                 else:
-                    model.partial_fit(args[0][:h])
-                    model.partial_fit(args[0][h:])
-            else:
-                model.fit(*args)
+                    model.fit(*args)
+            except REFUSALS as e:
+                err = e
+    if err is not None:
+        return None, calls, None, err
     ylab = None if y is None else [tuple(v) if isinstance(v, list) else v for v in y]
     occ = c08.occupancy(case, pr, ylab)
     if case.get("partial") and case["model"] == "gnb":
         occ = [sorted(set(ylab[:len(X) // 2])), sorted(set(ylab[len(X) // 2:]))]
-    return model_release(case, model), calls, occ
+    return model_release(case, model), calls, occ, None
 
 
 # ----------------------------------------------------------------------------------------------------------------------
@@ -473,19 +554,22 @@ def check_pair(ctx, case):
     entry = case["entry"]
     force = make_schedule(case["sched"], case.get("period"), case.get("sched_kind"))
     is_model = entry in MODELS
-    try:
-        if is_model:
-            rel1, calls1, occ1 = run_model(case, 0, force)
-            rel2, calls2, occ2 = run_model(case, 1, force)
-        else:
-            rel1, calls1 = run_tool(case, 0, force)
-            rel2, calls2 = run_tool(case, 1, force)
-            occ1 = occ2 = None
-    except (ValueError, TypeError, FloatingPointError, np.linalg.LinAlgError, ZeroDivisionError) as e:
+    run = run_model if is_model else run_tool
+    rel1, calls1, occ1, err1 = run(case, 0, force)
+    rel2, calls2, occ2, err2 = run(case, 1, force)
+    if err1 is not None or err2 is not None:
+        # refusals (validation of the input): the OUTCOME is compared — at HEAD e.g. NaN / inf entries are refused by every
+        # estimator before any mechanism runs, for both datasets alike
         ctx.count("refused_" + entry)
         ctx.count("refused")
+        e = err1 if err1 is not None else err2
         if ctx.counters["refused"] <= 5:
             ctx.note(f"{entry}: {type(e).__name__}: {str(e)[:120]}")
+        if err1 is not None and err2 is not None and type(err1) is type(err2):
+            ctx.count("refused_both_alike")
+            ctx.case(None)
+            return "ok"
+        ctx.count("refused_one_only")
         return "skipped"
     data = {"entry": entry, "case": case}
     # a fit / query that reaches its release without the expected noise invocations computed it from the records
@@ -554,6 +638,9 @@ def check(ctx):
             check_pair(ctx, case)
             if j == 0:
                 ctx.sample({"entry": tool, "params": case["params"], "shape": case["shape"]})
+    for case in big_grid_cases(ctx.fork("big-grids"), ctx):
+        check_pair(ctx, case)
+        ctx.count("big_grid_pairs")
     for case in pca_dispatch_cases(ctx.fork("pca-dispatch"), ctx):
         check_pair(ctx, case)
         ctx.count("pca_dispatch_pairs")
